@@ -647,9 +647,6 @@ impl<'a, 'w> Executor<'a, 'w> {
         self.line = line;
     }
 
-    pub fn env(&self) -> &'a CaseEnv {
-        self.case
-    }
 
     /// Aborts the open transaction, if any, without writing anything (end of a case).
     pub fn finish(&mut self) {
